@@ -595,7 +595,23 @@ func (d *cnDriver) step() error {
 			// a proposal of a failed round for the same height: same transactions minus the last user transaction, other hash
 			ob := *b
 			ob.Txs = nil
-			if len(mempool) > 0 {
+			if len(b.Txs) >= 2 && d.rng.Intn(2) == 0 {
+				// ... or the decided proposal with one user transaction left out (or two exchanged) and the proposer's block
+				// metadata transaction kept: well-formed and signed, but its state root no longer matches - the replica
+				// executes it, rejects it at the metadata check, and must keep nothing of it
+				k := d.rng.Intn(len(b.Txs) - 1)
+				if len(b.Txs) >= 3 && d.rng.Intn(3) == 0 {
+					ob.Txs = append([][]byte{}, b.Txs...)
+					j := (k + 1) % (len(b.Txs) - 1)
+					ob.Txs[k], ob.Txs[j] = ob.Txs[j], ob.Txs[k]
+				} else {
+					ob.Txs = append(append([][]byte{}, b.Txs[:k]...), b.Txs[k+1:]...)
+				}
+				ob.Hash = blockHash(h, 9, ob.Txs)
+				if _, perr3 := r.process(&ob, d.valset); perr3 != nil {
+					d.panics = append(d.panics, fmt.Sprintf("h=%d ProcessProposal(stale metadata): %s", h, perr3))
+				}
+			} else if len(mempool) > 0 {
 				otxs, perr2 := prop.prepareShadow(&ob, mempool[:len(mempool)-1], d.valset, r)
 				if perr2 == nil && otxs != nil {
 					ob.Txs = otxs
